@@ -69,6 +69,64 @@ SlitLnPFactored(L, a, h, T) ==
        t9 == DDiv(DMul(DDiv(DPow(s, 10), DInt(9)), GeoSum(d0, x, 9, 0)), DPow(DMul(x, d0), 9))
    IN DMul(SlitCoeff(a, h, T), DSub(t9, t3))
 
+\* ---- Rege & Yang (2000): discrete layers of adsorbate molecules -------------------------------------------
+\* integer part of a non-negative DecFloat (layer counts)
+DFloorPos(a) == IF a[1] <= 0 THEN 0 ELSE IF a[2] >= 0 THEN a[1] * P10(a[2]) ELSE IF -a[2] > 9 THEN 0 ELSE a[1] \div P10(-a[2])
+NOverRT(T) == DDiv(NAvog, DMul(Rgas, T))
+Pi == DL(314159265, -8)
+\* 10-4 potential of one plane of density n and dispersion constant A at distance z, zero-energy distance sg:
+\*   n A / (2 sg^4) [ (sg/z)^10 - (sg/z)^4 ]      (sg, z in nm; sg^4 of the prefactor in m^4)
+Plane104(nA, sg, z) == LET r == DDiv(sg, z) IN DMul(DDiv(nA, DMul(DInt(2), DPow(DMul(sg, Nm), 4))), DSub(DPow(r, 10), DPow(r, 4)))
+\* slit of nucleus-to-nucleus distance L; M = (L - d_h)/d_g layers (a real number).  M < 2: one molecule between the two
+\* walls; M >= 2: two wall layers (wall + adsorbate neighbour) and M - 2 inner layers (two adsorbate neighbours)
+RYSlitLayers(L, a, h) == DDiv(DSub(L, h.d), a.d)
+RYSlitLnP(L, a, h, T, twoWalls) ==
+   LET d0 == D0(a, h)
+       sg == DMul(SigmaOverD, d0)
+       sgg == DMul(SigmaOverD, a.d)
+       nAh == DMul(h.ns, KMgh(a, h))
+       nAg == DMul(a.ns, KMgg(a))
+       Ehg == Plane104(nAh, sg, d0)
+       Egg == Plane104(nAg, sgg, a.d)
+       M == RYSlitLayers(L, a, h)
+   IN IF twoWalls THEN DMul(NOverRT(T), DAdd(Ehg, Plane104(nAh, sg, DSub(L, d0))))
+      ELSE DMul(NOverRT(T), DDiv(DAdd(DMul(DInt(2), DAdd(Ehg, Egg)), DMul(DSub(M, DInt(2)), DMul(DInt(2), Egg))), M))
+\* sphere of radius L: M = int[((2L - d_h)/d_g - 1)/2] + 1 concentric layers; layer 1 interacts with the n_0 wall atoms,
+\* layer i >= 2 with the n_(i-1) molecules of the layer OUTSIDE it; average weighted with the layer's own population n_i
+RYSphereLayers(L, a, h) == DFloorPos(DHalf(DSub(DDiv(DSub(DMul(DInt(2), L), h.d), a.d), DInt(1)))) + 1
+RYSphereBracket(aa, b) ==
+   LET om == DSub(DInt(1), b)  op == DAdd(DInt(1), b)
+   IN DSub(DMul(DDiv(DPow(aa, 12), DMul(DInt(10), b)), DSub(DDiv(DInt(1), DPow(om, 10)), DDiv(DInt(1), DPow(op, 10)))),
+           DMul(DDiv(DPow(aa, 6), DMul(DInt(4), b)), DSub(DDiv(DInt(1), DPow(om, 4)), DDiv(DInt(1), DPow(op, 4)))))
+RYSphereLnP(L, a, h, T) ==
+   LET d0 == D0(a, h)
+       M == RYSphereLayers(L, a, h)
+       X(i) == DSub(DSub(L, d0), DMul(DInt(i - 1), a.d))                 \* radius of the shell of layer i (nm)
+       Area(r) == DMul(DMul(DInt(4), Pi), DPow(DMul(r, Nm), 2))           \* m^2
+       n0 == DMul(Area(L), h.ns)
+       nn(i) == DMul(Area(X(i)), a.ns)
+       p12 == DDiv(KMgh(a, h), DMul(DInt(4), DPow(DMul(d0, Nm), 6)))
+       p22 == DDiv(KMgg(a), DMul(DInt(4), DPow(DMul(a.d, Nm), 6)))
+       eps(i) == IF i = 1 THEN DMul(DMul(DInt(2), DMul(n0, p12)), RYSphereBracket(DDiv(d0, L), DDiv(DSub(L, d0), L)))
+                 ELSE DMul(DMul(DInt(2), DMul(nn(i - 1), p22)), RYSphereBracket(DDiv(a.d, X(i - 1)), DDiv(X(i), X(i - 1))))
+       live == {i \in 1..M : X(i)[1] > 0}                                 \* a shell of zero radius holds nobody
+       num == FoldLeft(DAdd, DZero, [i \in 1..M |-> IF i \in live THEN DMul(nn(i), eps(i)) ELSE DZero])
+       den == FoldLeft(DAdd, DZero, [i \in 1..M |-> IF i \in live THEN nn(i) ELSE DZero])
+   IN DMul(NOverRT(T), DDiv(num, den))
+
+\* Which published equation the specification holds for a model family x geometry ("none": literature fidelity of
+\* that potential is not decided, only self-consistency is checked)
+Published(family, geo) == IF family = "HK" /\ geo = "slit" THEN "hk-slit"
+                          ELSE IF family = "RY" /\ geo = "slit" THEN "ry-slit"
+                          ELSE IF family = "RY" /\ geo = "sphere" THEN "ry-sphere" ELSE "none"
+\* values of Phi/RT the published equation allows at length L (two where L is within 1e-4 of the slit's layer switch)
+PublishedPhi(kind, L, a, h, T) ==
+   CASE kind = "hk-slit" -> {SlitLnP(L, a, h, T)}
+     [] kind = "ry-sphere" -> {RYSphereLnP(L, a, h, T)}
+     [] kind = "ry-slit" -> LET M == RYSlitLayers(L, a, h)
+                            IN IF DCloseAbs(M, DInt(2), DTol(4), DZero) THEN {RYSlitLnP(L, a, h, T, TRUE), RYSlitLnP(L, a, h, T, FALSE)}
+                               ELSE {RYSlitLnP(L, a, h, T, DLt(M, DInt(2)))}
+
 \* effective pore width reported by the methods: W = g L - d_h  (g = 1 slit, 2 cylinder/sphere: L is a radius there)
 GeoFactor(geo) == IF geo = "slit" THEN 1 ELSE 2
 WidthOf(geo, L, h) == DSub(DMul(DInt(GeoFactor(geo)), L), h.d)
@@ -105,7 +163,18 @@ Adsorbates == [
    Ar |-> [d |-> DL(336, -3), alpha |-> DL(163, -5), chi |-> DL(325, -10), ns |-> DL(852, 16), rho |-> DL(140, -2), M |-> DL(39948, -3)],
    CO2 |-> [d |-> DL(323, -3), alpha |-> DL(27, -4), chi |-> DL(35, -9), ns |-> DL(545, 16), rho |-> DL(1023, -3), M |-> DL(4401, -2)] ]
 AdsorbateIds == <<"N2", "Ar", "CO2">>
-LoadFams == <<"lin", "sat", "step">>
+LoadFams == <<"lin", "sat", "step", "near_sat">>
+\* order in which the chosen lengths are presented (the pressure of point j belongs to length number Perm(j)):
+\*   "id" increasing; "swap" neighbours exchanged in the upper half (with a steeply saturating loading the Cheng-Yang
+\*   term can keep the PRESSURES increasing although the solutions are not); "rev" decreasing.
+\* Every width must solve the equation for ITS pressure whatever the order.
+Perms == <<"id", "swap", "id", "rev">>
+PermIdx(perm, N, j) ==
+   CASE perm = "id" -> j
+     [] perm = "rev" -> N + 1 - j
+     [] perm = "swap" -> LET hf == N \div 2 IN
+                         IF j <= hf THEN j ELSE IF (j - hf) % 2 = 1 THEN (IF j + 1 <= N THEN j + 1 ELSE j) ELSE j - 1
+PermSeq(perm, N) == [j \in 1..N |-> PermIdx(perm, N, j)]
 NPts == <<10, 20, 40>>
 
 \* increasing loadings (mmol/g), j = 1..N
@@ -113,6 +182,7 @@ Loading(fam, N, j) ==
    CASE fam = "lin" -> DAdd(DL(5, -1), DDiv(DInt(95 * j), DInt(10 * N)))
      [] fam = "sat" -> DDiv(DInt(40 * j), DInt(4 * j + N))
      [] fam = "step" -> DAdd(DDiv(DInt(j), DInt(N)), IF 2 * j > N THEN DInt(5) ELSE DZero)
+     [] fam = "near_sat" -> DDiv(DInt(10 * j * (2 * N - j)), DInt(N * N))      \* 10 u (2 - u), u = j/N: coverage 0.74 .. 0.99 in the upper half
 Loadings(fam, N) == [j \in 1..N |-> Loading(fam, N, j)]
 
 \* chosen slit widths: N points strictly between the geometric minimum L = 2 d0 and the L of a 3 nm pore
@@ -126,12 +196,19 @@ Scenarios ==
        Mk(i) == LET m == i % nM  g == (i \div nM) % nG  h == (i \div (nM * nG)) % nH
                     a == (i \div (nM * nG * nH)) % nA  t == (i \div (nM * nG * nH * nA)) % nT
                 IN [id |-> i, model |-> Models[m + 1], geo |-> Geos[g + 1], h |-> AdsorbentIds[h + 1], a |-> AdsorbateIds[a + 1],
-                    T |-> Temps[t + 1], fam |-> LoadFams[((m + g + h + a + t) % 3) + 1], npts |-> NPts[((g + h + 2 * a + t) % 3) + 1]]
+                    T |-> Temps[t + 1], fam |-> LoadFams[((m + g + h + a + t) % 4) + 1], npts |-> NPts[((g + h + 2 * a + t) % 3) + 1],
+                    perm |-> Perms[((m + 3 * g + h + 2 * a + t) % 4) + 1]]
    IN [i \in 1..total |-> Mk(i - 1)]
+
+\* Histories through psd_microporous(adsorbate_model=None): the adsorbate parameters (incl. the liquid density at the
+\* isotherm's temperature) are looked up per call; the result of a call is a function of ITS isotherm only.
+\* Configurations: the same adsorbate at two temperatures, another adsorbate at one of them; every order of length 3.
+HistConfigs == <<[ads |-> "N2", T |-> DL(7735, -2)], [ads |-> "N2", T |-> DL(873, -1)], [ads |-> "Ar", T |-> DL(873, -1)]>>
+Histories == [1..3 -> 1..Len(HistConfigs)]
 
 ---------------------------------------------------------------------------
 \* Judging one recorded run.  q fields (all numbers DecFloat):
-\*   geo, cy, a (adsorbate), h (adsorbent), lnp (ln of the pressures fed), n (loadings fed), ln1m (ln(1-theta_j), cy only)
+\*   family ("HK" | "RY"), T, geo, cy, a (adsorbate), h (adsorbent), lnp (ln of the pressures fed), n (loadings fed), ln1m (ln(1-theta_j), cy only)
 \*   L  (the k <= N lengths returned by the library's solver, in solver units: slab distance / radius)
 \*   f0, fm, fp, gm, gp (the library's own dimensionless potential Phi/RT observed at L, L(1 -/+ 1e-3), L(1 -/+ 1e-4))
 \*   w, dist, cum (the three arrays returned); a non-finite entry is encoded <<0, 9999>>
@@ -203,6 +280,10 @@ Judge(q) ==
                                          /\ DLt(q.w[j + 1], DMul(q.w[j], DSub(DInt(1), Eps3)))}
        \* slit round trip: the solved widths are the chosen ones
        badRT == IF Len(q.chosen) = 0 THEN {} ELSE {j \in 1..k : ~RelW(W[j], q.chosen[j], Eps3)}
+       \* the library's potential at the reported length IS the published one (where the specification holds it)
+       pub == Published(q.family, q.geo)
+       badPub == IF pub = "none" THEN {} ELSE
+                 {j \in 1..k : ~\E v \in PublishedPhi(pub, q.L[j], q.a, q.h, q.T) : DClose(q.f0[j], v, DTol(4))}
        short == Len(q.chosen) > 0 /\ k < N
    IN [shape |-> shapeOk,
        eqcls |-> cls,
@@ -212,5 +293,7 @@ Judge(q) ==
        dist |-> badDist,
        mono |-> badMono \cup badMonoRep,
        rt |-> badRT,
+       published |-> pub,
+       pub |-> badPub,
        short |-> short]
 =============================================================================
